@@ -71,7 +71,7 @@ def run(ctx):
         if switches >= 2:
             nontriv += 1
         points += obs.points if obs else 0
-        replay = {"kind": "schedule", "family": fam["name"], "setup": fam["setup"], "participants": K.part_lines(fam), "schedule": sched,
+        replay = {"kind": "schedule", "family": fam["name"], "setup": fam["setup"], "participants": K.part_lines(fam), "schedule": sched, "raw_schedule": K.schedule_raw(cr),
                   "how": "tools/replay_sched (participants are processes; the schedule lists who is granted its next filesystem call)"}
         for i, run_ in enumerate(cr.runs):
             for st, (opk, rest) in run_.results.items():
